@@ -31,6 +31,9 @@ ASSUMPTIONS = [
 ]
 
 
+from .common_node import clock_sources
+
+
 def run(ctx: Ctx):
     model = ctx.model
     nc = model.cls("node.node", "Node")
@@ -212,7 +215,7 @@ def run(ctx: Ctx):
     else:
         rets = [n for n in ast.walk(ds.node) if isinstance(n, ast.Return) and n.value is not None]
         if not any(isinstance(r.value, ast.BinOp) and isinstance(r.value.op, ast.Sub)
-                   and "time.time()" in ast.unparse(r.value.left)
+                   and clock_sources(model, ds.module, r.value.left, ds.cls)
                    and A.dotted(r.value.right) == "self.last_disconnect" for r in rets):
             ctx.fail(cons, ds.loc(), "disconnected_since is not `now - last_disconnect`")
         gd = cfg_of(ds)
@@ -335,3 +338,11 @@ def run(ctx: Ctx):
                 floor=6)
     from .common_node import socket_close_confined
     socket_close_confined(ctx, "C12-R9")
+    # the reconnect scan is due in every round of the I/O loop, also in busy ones
+    from .common_node import io_loop_every_round
+    io_loop_every_round(ctx, "C12-R10", want=("reconnect",))
+    # writer, readers and purge of the flat transaction tables agree on the key
+    from .common_node import transaction_table_keys
+    transaction_table_keys(ctx, "C12-R12")
+    from .common_node import clock_agreement
+    clock_agreement(ctx, "C12-R11", {("node.peer", "Peer", "last_disconnect"): ["disconnected_since"]})
